@@ -20,13 +20,13 @@ git apply "$SEED/patch.diff"; AP=$?
 g++ -std=gnu++20 -O1 -pthread $XFLAGS $INC "$SEED/demo.cpp" -o $T/demo_patched 2>$T/demo_patched.err; C1=$?
 timeout 600 $T/demo_patched >$T/demo_patched.out 2>&1; R1=$?
 cmake --build _build -j16 >$T/build.log 2>&1; B=$?
-ctest --test-dir _build -j16 --timeout 900 >$T/ctest.log 2>&1; T=$?
+ctest --test-dir _build -j16 --timeout 900 >$T/ctest.log 2>&1; CT=$?
 SUMMARY=$(grep -E "tests passed|tests failed" $T/ctest.log | tail -1)
 git checkout -q -- .
 python3 - "$OUT" <<PY
 import json,sys
 json.dump({"patch_applies": $AP==0, "demo_compiles_clean": $C0==0, "demo_exit_clean": $R0, "demo_compiles_patched": $C1==0, "demo_exit_patched": $R1,
-           "suite_builds_with_patch": $B==0, "ctest_exit_with_patch": $T, "ctest_summary": """$SUMMARY""",
+           "suite_builds_with_patch": $B==0, "ctest_exit_with_patch": $CT, "ctest_summary": """$SUMMARY""",
            "demo_output_patched_tail": open('$T/demo_patched.out').read()[-600:]}, open(sys.argv[1],'w'), indent=1)
 PY
 cat "$OUT"
